@@ -54,10 +54,12 @@ def run(tier, seed):
     gs = tlc.run("Html", GEN % ("FALSE", 0, "single"), workers=NCPU, timeout=900)
     gp = tlc.run("Html", GEN % ("FALSE", 0, "pair"), workers=NCPU, timeout=900)
     gn = tlc.run("Html", GEN % ("FALSE", 0, "notes"), workers=NCPU, timeout=900)
+    gb = tlc.run("Html", GEN % ("FALSE", 0, "big"), workers=4, timeout=900)
+    if gb.violated or len(gb.printed) < 10: raise FrameworkError("Html(big): %s, %d documents" % (gb.violated, len(gb.printed)))
     gr = tlc.run("Html", GEN % ("TRUE", 5, "random"), workers=4, simulate=(100 if tier == "quick" else 1500), depth=7, seed=seed, timeout=900)
     if gs.violated or gp.violated or gr.violated or gn.violated: raise FrameworkError("Html: CompLaw violated on the reference itself")
     chk.cov["states"] = gs.distinct + gp.distinct; chk.cov["transitions"] = max(gs.generated + gp.generated, 1)
-    cases = uniq(gs.printed + gp.printed + gn.printed + gr.printed, key=lambda c: c["src"])
+    cases = uniq(gs.printed + gp.printed + gn.printed + gb.printed + gr.printed, key=lambda c: c["src"])
     exe = build.build_harness("asan")
     segs = []; per = 12; meta = []
     for i in range(0, len(cases), per):
